@@ -16,6 +16,54 @@ LA = ("list", "ast")
 FB = {"mirror": "corpus", "trait": "unused"}
 
 
+def _mentions(f, t):
+    """does the z3 term t occur in formula f"""
+    seen, stack = set(), [f]
+    while stack:
+        e = stack.pop()
+        if e.get_id() in seen:
+            continue
+        seen.add(e.get_id())
+        if e.eq(t):
+            return True
+        if z3.is_quantifier(e):
+            stack.append(e.body())
+        elif z3.is_app(e):
+            stack.extend(e.children())
+    return False
+
+
+def _constants(f):
+    """uninterpreted constants (0-ary, non-numeral) of a formula"""
+    out, seen, stack = [], set(), [f]
+    while stack:
+        e = stack.pop()
+        if e.get_id() in seen:
+            continue
+        seen.add(e.get_id())
+        if z3.is_quantifier(e):
+            stack.append(e.body())
+        elif z3.is_app(e):
+            if e.num_args() == 0 and e.decl().kind() == z3.Z3_OP_UNINTERPRETED:
+                out.append(e)
+            stack.extend(e.children())
+    return out
+
+
+def _has_quantifier(f):
+    seen, stack = set(), [f]
+    while stack:
+        e = stack.pop()
+        if e.get_id() in seen:
+            continue
+        seen.add(e.get_id())
+        if z3.is_quantifier(e):
+            return True
+        if z3.is_app(e):
+            stack.extend(e.children())
+    return False
+
+
 def _usage_object(ctx, st, used=None, used_positions=None, inp=None, outp=None):
     m = ctx.m
     fields = dict(
@@ -65,7 +113,13 @@ def remove_unused(ctx):
         rt = ex.to_term(s, r, LA)
         inres = lambda x: z3.Exists([j], z3.And(0 <= j, j < ln(rt), at(rt, j) == x))
         ctx.oblige(f"post-only-unused-plain-heads-dropped#{n}", s, z3.ForAll([i], z3.Implies(z3.And(0 <= i, i < ln(prg.term), z3.Not(inres(at(prg.term, i)))), droppable(at(prg.term, i)))), replay={"mirror": "remove_unused"})
-        ctx.oblige(f"post-nothing-invented#{n}", s, z3.ForAll([j], z3.Implies(z3.And(0 <= j, j < ln(rt)), z3.Exists([i], z3.And(0 <= i, i < ln(prg.term), at(prg.term, i) == at(rt, j)))), patterns=[at(rt, j)]), kind="frame", replay={"mirror": "remove_unused"})
+        # proved from what the state says about the result list alone (the summary of the filtering loop); the other
+        # facts of the state (well-formedness of every statement) only slow the solver down
+        about_result = [f for f in s.pc if _mentions(f, rt)]
+        # ... and about the (empty) list the accumulation started from, which those facts refer to
+        consts = {c.get_id(): c for f in about_result for c in _constants(f) if not c.eq(prg.term) and not c.eq(rt)}
+        about_result += [f for f in s.pc if not _mentions(f, rt) and not _has_quantifier(f) and any(_mentions(f, c) for c in consts.values())]
+        ctx.oblige(f"post-nothing-invented#{n}", about_result, z3.ForAll([j], z3.Implies(z3.And(0 <= j, j < ln(rt)), z3.Exists([i], z3.And(0 <= i, i < ln(prg.term), at(prg.term, i) == at(rt, j)))), patterns=[at(rt, j)]), kind="frame", replay={"mirror": "remove_unused"})
     ctx.inputs.clear()
 
 
